@@ -6,7 +6,7 @@ REPO = os.environ.get("VERIF_REPO", "/repo")  # VERIF_REPO: development only (sc
 BUILD = os.path.join(ROOT, "build")
 COQ = os.path.join(ROOT, "coq")
 HGO = os.path.join(ROOT, "harness", "go")
-EVID = os.path.join(ROOT, "evidence")
+EVID = os.environ.get("VERIF_EVIDENCE_DIR") or os.path.join(ROOT, "evidence")
 REPLAYS = os.path.join(EVID, "replays")
 DEFAULT_SEED = 20250925
 
@@ -63,9 +63,15 @@ def coq_files():
     return [l.strip() for l in lines if l.strip().endswith(".v")]
 
 
-def coq_make(targets=None, timeout=3000):
-    """(incremental) full .vo build of the development, or of given targets; serialised by a lock"""
+def coq_make(targets=None, timeout=3000, remove=()):
+    """(incremental) full .vo build of the development, or of given targets; serialised by a lock.
+    [remove]: files deleted under the same lock before the build (forces a re-check of those targets)"""
     with Lock("coq"):
+        for f in remove:
+            try:
+                os.remove(f)
+            except FileNotFoundError:
+                pass
         mk = os.path.join(COQ, "Makefile")
         cp = os.path.join(COQ, "_CoqProject")
         if not os.path.exists(mk) or os.path.getmtime(mk) < os.path.getmtime(cp):
@@ -134,13 +140,9 @@ def check_property_file(prop):
     missing = [t for t in theorems if t not in printed]
     if missing:
         res["errors"].append("no Print Assumptions for: " + ", ".join(missing))
-    for ext in (".vo", ".vos", ".vok", ".glob"):
-        try:
-            os.remove(os.path.join(COQ, rel[:-2] + ext))
-        except FileNotFoundError:
-            pass
     t0 = time.time()
-    rc, out = coq_make([rel[:-2] + ".vo"], timeout=3000)
+    rc, out = coq_make([rel[:-2] + ".vo"], timeout=3000,
+                       remove=[os.path.join(COQ, rel[:-2] + ext) for ext in (".vo", ".vos", ".vok", ".glob")])
     res["coq_wall_s"] = round(time.time() - t0, 1)
     res["output_tail"] = out[-3000:]
     if rc != 0:
@@ -167,6 +169,17 @@ def check_property_file(prop):
         res["errors"].append("expected %d Print Assumptions results, saw %d" % (len(printed), len(blocks)))
     res["discharged"] = min(closed, len(theorems)) if not missing else 0
     return res
+
+
+def coqchk(prop, timeout=3000):
+    """independent re-check of Properties/<prop>.vo and everything it depends on (thorough tier)"""
+    with Lock("coq"):
+        t0 = time.time()
+        rc, out = sh(["coqchk", "-silent", "-o", "-Q", ".", "RV", "RV.Properties.%s" % prop], cwd=COQ, timeout=timeout)
+    m = re.search(r"\* Axioms:(.*?)\n\s*\n\* Constants", out, re.S)
+    axioms = [] if (m and "<none>" in m.group(1)) else ([l.strip() for l in m.group(1).strip().split("\n") if l.strip()] if m else None)
+    bad = [k for k in ("type-in-type", "unsafe (co)fixpoints", "positivity is assumed") if re.search(re.escape(k) + r":\s*(?!<none>)\S", out)]
+    return {"rc": rc, "axioms": axioms, "relies_on_unchecked": bad, "wall_s": round(time.time() - t0, 1), "tail": out[-600:]}
 
 
 def build_model(timeout=1200):
@@ -211,24 +224,42 @@ def run_model(text, timeout=900):
 
 
 def run_model_vm(text, timeout=900):
-    """evaluate the same cases with vm_compute inside coqc (cross-check of extraction)"""
+    """evaluate the same cases with vm_compute inside coqc (cross-check of extraction); one
+    definition per case line so that no string literal gets large"""
     d = os.path.join(BUILD, "vm", str(os.getpid()))
     os.makedirs(d, exist_ok=True)
-    esc = text.replace('"', '""')
     v = os.path.join(d, "cases.v")
+    lines = [l for l in text.split("\n") if l]
     with open(v, "w") as f:
         f.write('From RV Require Import Base.Text Driver.Main.\nLocal Open Scope string_scope.\n')
-        f.write('Definition input : string := "%s".\n' % esc)
-        f.write('Definition out := Eval vm_compute in hex_encode (run input).\nPrint out.\n')
-    rc, out = sh(["coqc", "-Q", COQ, "RV", v], cwd=d, timeout=timeout)
+        for i, l in enumerate(lines):
+            esc = l.replace('"', '""')
+            # long lines are passed in pieces and concatenated inside Coq
+            pieces = [esc[k:k + 4000] for k in range(0, len(esc), 4000)] or [""]
+            f.write('Definition in%d : string := %s.\n' % (i, " ++ ".join('"%s"' % p for p in pieces)))
+            f.write('Definition out%d := Eval vm_compute in hex_encode (run_line in%d).\nPrint out%d.\n' % (i, i, i))
+
+    def big_stack():
+        import resource
+        try:
+            resource.setrlimit(resource.RLIMIT_STACK, (resource.RLIM_INFINITY, resource.RLIM_INFINITY))
+        except Exception:
+            pass
+    try:
+        p = subprocess.run(["coqc", "-Q", COQ, "RV", v], cwd=d, stdout=subprocess.PIPE, stderr=subprocess.STDOUT,
+                           timeout=timeout, preexec_fn=big_stack)
+        rc, out = p.returncode, p.stdout.decode("utf-8", "replace")
+    except subprocess.TimeoutExpired:
+        rc, out = 124, "[timeout]"
     shutil.rmtree(d, ignore_errors=True)
     if rc != 0:
         raise RuntimeError("coqc cases.v failed: " + out[-2000:])
-    m = re.search(r'out\s*=\s*"([0-9a-f\s]*)"', out)
-    if not m:
-        raise RuntimeError("cannot parse vm_compute output: " + out[-500:])
-    hx = re.sub(r"\s+", "", m.group(1))
-    return bytes.fromhex(hx).decode("latin-1").split("\n")[:-1]
+    res = []
+    for m in re.finditer(r'out\d+\s*=\s*"([0-9a-f\s]*)"', out):
+        res.append(bytes.fromhex(re.sub(r"\s+", "", m.group(1))).decode("latin-1"))
+    if len(res) != len(lines):
+        raise RuntimeError("cannot parse vm_compute output: %d results for %d lines: %s" % (len(res), len(lines), out[-500:]))
+    return res
 
 
 # ------------------------------------------------------------------ Go side
@@ -307,6 +338,15 @@ class Check:
         if gate:
             errs.append("grep gate: " + "; ".join(gate[:5]))
             self.cov["discharged"] = 0
+        if self.tier == "thorough" and not errs:
+            c = coqchk(self.prop)
+            okc = c["rc"] == 0 and c["axioms"] is not None and not c["relies_on_unchecked"] and \
+                all(a.split(".")[-1] in STD_AXIOMS for a in (c["axioms"] or []))
+            self.cov["obligations"] += 1
+            self.cov["discharged"] += 1 if okc else 0
+            self.cov["coqchk"] = {k: c[k] for k in ("rc", "axioms", "relies_on_unchecked", "wall_s")}
+            if not okc:
+                errs.append("coqchk failed or reports axioms/unchecked constructs: %s" % c["tail"][-300:])
         self.proof_errors = errs
         self.proof_result = r
         return not errs
